@@ -131,6 +131,8 @@ def project_for(k1, k2):
         "requirements.txt": MANIFEST,
         "setup.cfg": MANIFEST2,
         "setup.py": SETUP_PY,
+        # a file no codemod can parse: every codemod that selects it must list it as failed, alone or in a batch
+        "legacy.py": b"print 'python 2 only'\n",
     }
     ab, ba = _concat(s1.input, s2.input), _concat(s2.input, s1.input)
     if ab:
